@@ -153,9 +153,10 @@ def canon(x):
 
 
 def canon_files(files):
+    """per file the blocks IN ORDER: blocks are reported in source order (C03), so the order is an observable"""
     out = {}
     for path, blocks in (files or {}).items():
-        out[path] = sorted((canon(b) for b in blocks))
+        out[path] = [canon(b) for b in blocks]
     return out
 
 
